@@ -5,4 +5,14 @@
 #endif
 #define TVEC_OK(v) (__CPROVER_is_fresh((v), sizeof(*(v))) && (v)->cap == TCAP && (v)->size <= TCAP)
 #define CTX_OK(c) (__CPROVER_is_fresh((c), sizeof(*(c))))
+/* type invariant of a packet context as far as the subpacket functions depend on it: a non-zero length field owns a
+ * readable buffer of that length (FRESH form for entry points, RW form inside loops and after calls) */
+#define MAXALLOC 2147483645UL   /* TMCG_OPENPGP_MAX_ALLOC */
+#define CTX_BUFS_FRESH(c) ((c)->embeddedsignaturelen <= MAXALLOC && (c)->attestedcertificationslen <= MAXALLOC && \
+  ((c)->embeddedsignaturelen == 0 || __CPROVER_is_fresh((c)->embeddedsignature, (c)->embeddedsignaturelen)) && \
+  ((c)->attestedcertificationslen == 0 || __CPROVER_is_fresh((c)->attestedcertifications, (c)->attestedcertificationslen)))
+#define CTX_BUFS_RW(c) ((c)->embeddedsignaturelen <= MAXALLOC && (c)->attestedcertificationslen <= MAXALLOC && \
+  ((c)->embeddedsignaturelen == 0 || (__CPROVER_DYNAMIC_OBJECT((c)->embeddedsignature) && __CPROVER_r_ok((c)->embeddedsignature, (c)->embeddedsignaturelen))) && \
+  ((c)->attestedcertificationslen == 0 || (__CPROVER_DYNAMIC_OBJECT((c)->attestedcertifications) && __CPROVER_r_ok((c)->attestedcertifications, (c)->attestedcertificationslen))))
+#define CNT_OK(v) (__CPROVER_is_fresh((v), sizeof(*(v))) && (v)->size <= ((size_t)1 << 40))
 #endif
